@@ -7,6 +7,14 @@ props = [json.loads(l) for l in open(os.path.join(ROOT, 'properties.jsonl'))]
 TECH = "bounded symbolic execution of the unmodified bycycle source over a numpy/pandas model; z3 decides every path and obligation; counterexamples replayed on the real libraries"
 
 CHECKS = {
+ 'C01': dict(
+   text="Raw samples, the band-passed samples (arbitrary filter output), the amplitude envelope, the dual-threshold mask and the boundary are z3 variables; the real compute_shape_features / compute_features / Bycycle.fit run over the models on every feasible path and every returned table is proved to satisfy the ordering / tiling / boundary structure; a table with >= 1 row is required whenever >= 3 closed half-waves of each kind lie inside the boundary. Multi-row assembly is covered with find_extrema / find_zerox cut to arbitrary outputs obeying their C02 / C03 contracts (positions fully symbolic).",
+   note="Trusted: numpy/pandas models (witness-validated), stub contracts at the neurodsp boundary (arbitrary outputs of the right length), C02/C03 for the assembly configurations. Bound: padded length <= 8 (quick) / 10 (thorough) for the uncut layers; 2..6 (quick) / 2..9 (thorough) extrema pairs for the assembly.",
+   ref="4 C01"),
+ 'C04': dict(
+   text="Raw samples, amplitude envelope and (in cut mode) the cyclepoint positions are z3 variables; the real compute_shape_features and helpers run on every feasible path and each shape column is proved equal to its documented formula read on the original signal, for both centrings, incl. the (0,1) / [0,1] ranges and the arguments of the amplitude call.",
+   note="Trusted: numpy/pandas models (witness-validated); cut mode assumes the C01 postcondition for compute_cyclepoints. Bounds: e2e padded length 8 (quick) / 9; cut N <= 9 with 1..3 cycles (quick) / N <= 10.",
+   ref="4 C04"),
  'C02': dict(
    text="Raw samples, the band-passed samples (arbitrary filter output) and the boundary are z3 variables; all feasible paths of the real find_extrema are executed for every padded length up to the bound and every reported extremum is proved to be the first raw-signal extreme of its closed half-wave window, nothing else being reported; boundary and first_extrema rules included.",
    note="Trusted: numpy model (witness-validated on real numpy each run), stub contracts for filter_signal / compute_filter_length (arbitrary output of len(sig); ValueError when both or neither of n_cycles/n_seconds). Bound: padded length <= 8 (quick) / 10 (thorough). Real FIR numerics are not encoded.",
